@@ -1134,6 +1134,33 @@ theorem mtext_law (sqrt : Rat → Rat) (old : Ocs) (m : M44) (t t' : MTxt)
         | (cases h; exact ⟨rfl, rfl, key (fun h0 => h2 (Or.inl h0)) (fun h0 => h2 (Or.inr h0)) _ rfl⟩)
         | cases h)
 
+/-- mtext_width_law (EVERY matrix): the column width of an MTEXT follows the image of its baseline: width'²·|T|² = width²·|m T|²
+    (T the text direction, any length), and the new extrusion is the one `transform_extrusion` returns for the OCS of the old
+    extrusion, so `extrusion_law` applies to it.  `sqrt` is assumed correct on |T|² and on the radicand of the new width. -/
+theorem mtext_width_law (sqrt : Rat → Rat) (old : Ocs) (m : M44) (t t' : MTxt) (w : Rat) (hw : t.width = some w)
+    (hD : sqrt (magSq t.dir) * sqrt (magSq t.dir) = magSq t.dir)
+    (hW : sqrt (magSq (applyDir m (V3.smul (w / sqrt (magSq t.dir)) t.dir))) * sqrt (magSq (applyDir m (V3.smul (w / sqrt (magSq t.dir)) t.dir)))
+            = magSq (applyDir m (V3.smul (w / sqrt (magSq t.dir)) t.dir)))
+    (h : MTxt.transform sqrt old m t = .ok t') :
+    (∃ w', t'.width = some w' ∧ w' * w' * magSq t.dir = w * w * magSq (applyDir m t.dir)) ∧
+    (∃ u, transformExtrusion sqrt old m = .ok (t'.ext, u)) := by
+  unfold MTxt.transform at h
+  split at h
+  · cases h
+  · rename_i n u hext
+    simp only [hw] at h
+    split_ifs at h with h1 h2 h3
+    cases h
+    refine ⟨⟨_, rfl, ?_⟩, u, hext⟩
+    rw [hW, applyDir_smul]
+    have : magSq (V3.smul (w / sqrt (magSq t.dir)) (applyDir m t.dir))
+        = w / sqrt (magSq t.dir) * (w / sqrt (magSq t.dir)) * magSq (applyDir m t.dir) := by
+      simp only [magSq, V3.dot, V3.smul]; ring
+    rw [this]
+    generalize sqrt (magSq t.dir) = rD at *
+    rw [← hD]
+    field_simp
+
 /-! ## 12. Rytz's axis construction (session 3): ELLIPSE, arc → ellipse fallback, HATCH ellipse edges
 
 `ConstructionEllipse.transform` maps the two conjugate half-diameters (major axis, minor axis) by `m` and, when the images are
@@ -1385,6 +1412,56 @@ theorem ellipse_shortcut_law (mj' mn' : V3) (ra rb rn r2 : Rat) (res : V3)
   have hb0 : rb ≠ 0 := ne_of_gt pb
   simp only [V3.smul]
   ext <;> simp <;> field_simp
+
+/-- ellipse_shortcut_general (removes the orthogonality hypothesis of `ellipse_shortcut_law`): in the branch of
+    `ConstructionEllipse.transform` for images that are orthogonal only WITHIN the tolerance 1e-6, the rebuilt minor axis is, exactly,
+    the rejection of the image minor axis from the image major axis — (mj' × mn') × mj' = |mj'|²·(mn' − proj) — rescaled to the
+    length of the image minor axis:  |mj' × mn'|·|mj'|·res = |mn'|·((mj' × mn') × mj'),  and the cosine of the angle between the
+    stored and the true minor axis is |mj' × mn'| / (|mj'||mn'|) = sin θ:  (res · mn')·|mj'| = |mn'|·|mj' × mn'|.  Hence
+    |res − mn'|² = 2|mn'|²(1 − sin θ) ≤ 2|mn'|²·(1 − √(1 − 10⁻¹²)) in that branch, and res = mn' when θ = 90°. -/
+theorem ellipse_shortcut_general (mj' mn' : V3) (ra rb rn r2 : Rat) (res : V3)
+    (ha : ra * ra = magSq mj') (hb : rb * rb = magSq mn') (hn : rn * rn = magSq (V3.cross mj' mn'))
+    (pa : 0 < ra) (pn : 0 < rn) (p2 : 0 < r2)
+    (h2 : r2 * r2 = TransformKernels.minorAxis_rad2 mj' (V3.smul (1 / rn) (V3.cross mj' mn')) (rb / ra) ra)
+    (h : TransformKernels.minorAxis mj' (V3.smul (1 / rn) (V3.cross mj' mn')) (rb / ra) ra r2 = .ok res) :
+    V3.smul (rn * ra) res = V3.smul rb (V3.cross (V3.cross mj' mn') mj') ∧
+    V3.dot res mn' * ra = rb * rn ∧ V3.dot res mj' = 0 := by
+  unfold TransformKernels.minorAxis at h
+  split_ifs at h with h0
+  cases h
+  have hrn0 : rn ≠ 0 := ne_of_gt pn
+  have ha0 : ra ≠ 0 := ne_of_gt pa
+  -- |n × mj'|² = |n|²|mj'|² because n = mj' × mn' is perpendicular to mj'
+  have hperp : V3.dot (V3.cross mj' mn') mj' = 0 := by simp only [V3.dot, V3.cross]; ring
+  have hl : magSq (V3.cross (V3.cross mj' mn') mj') = magSq (V3.cross mj' mn') * magSq mj' := by
+    rw [← lagrange, hperp]; ring
+  have e2 : TransformKernels.minorAxis_rad2 mj' (V3.smul (1 / rn) (V3.cross mj' mn')) (rb / ra) ra
+      = (1 / rn) * (1 / rn) * magSq (V3.cross (V3.cross mj' mn') mj') := by
+    simp only [TransformKernels.minorAxis_rad2, magSq, V3.dot, V3.cross, V3.smul]; ring
+  have h2' : r2 * r2 = ra * ra := by
+    rw [h2, e2, hl, ← hn, ← ha]; field_simp
+  have hr2 : r2 = ra := by
+    have : (r2 - ra) * (r2 + ra) = 0 := by linear_combination h2'
+    rcases mul_eq_zero.mp this with e | e <;> linarith
+  subst hr2
+  have htriple : V3.dot (V3.cross (V3.cross mj' mn') mj') mn' = magSq (V3.cross mj' mn') := by
+    simp only [V3.dot, V3.cross, magSq]; ring
+  have hperp2 : V3.dot (V3.cross (V3.cross mj' mn') mj') mj' = 0 := by simp only [V3.dot, V3.cross]; ring
+  generalize hX : V3.cross (V3.cross mj' mn') mj' = X at *
+  have eres : (⟨((V3.smul (1 / rn) (V3.cross mj' mn')).y * mj'.z - (V3.smul (1 / rn) (V3.cross mj' mn')).z * mj'.y) * (r2 * (rb / r2) / r2),
+      ((V3.smul (1 / rn) (V3.cross mj' mn')).z * mj'.x - (V3.smul (1 / rn) (V3.cross mj' mn')).x * mj'.z) * (r2 * (rb / r2) / r2),
+      ((V3.smul (1 / rn) (V3.cross mj' mn')).x * mj'.y - (V3.smul (1 / rn) (V3.cross mj' mn')).y * mj'.x) * (r2 * (rb / r2) / r2)⟩ : V3)
+      = V3.smul (rb / (rn * r2)) X := by
+    rw [← hX]
+    simp only [V3.smul, V3.cross, V3.mk.injEq]
+    refine ⟨?_, ?_, ?_⟩ <;> field_simp
+  rw [eres]
+  refine ⟨?_, ?_, ?_⟩
+  · simp only [V3.smul, V3.mk.injEq]; refine ⟨?_, ?_, ?_⟩ <;> field_simp
+  · have : V3.dot (V3.smul (rb / (rn * r2)) X) mn' = rb / (rn * r2) * V3.dot X mn' := by simp only [V3.dot, V3.smul]; ring
+    rw [this, htriple, ← hn]; field_simp
+  · have : V3.dot (V3.smul (rb / (rn * r2)) X) mj' = rb / (rn * r2) * V3.dot X mj' := by simp only [V3.dot, V3.smul]; ring
+    rw [this, hperp2, mul_zero]
 
 /-- ellipse_swap_law: the exchange of axes for ratio > 1 at the end of `ConstructionEllipse.transform` — two `minor_axis` calls with
     the unit normal n = (a × b)/|a × b| — turns orthogonal axes (a, b) into (b, −a) EXACTLY: the same ellipse (same tensor), major
@@ -1819,6 +1896,134 @@ theorem insertMatrix_base_point (o : Ocs) (i : Ins) (base : V3) : apply (insertM
   simp only [apply, TransformKernels.mTransform, V3.add, V3.sub, V3.smul, V3.mk.injEq]
   refine ⟨?_, ?_, ?_⟩ <;> ring
 
+/-! ## 20. final round: MINSERT grid expansion, matrix44 for the untransformed OCS, POLYMESH / POLYFACE -/
+
+/-- multi_insert_law: the grid element (col, row) of a MINSERT (`Insert.multi_insert()`, model `Ins.gridCell`, corresponded: X18)
+    places the block content where the MINSERT itself places it, moved by col·column_spacing along the reference's x-axis and
+    row·row_spacing along its y-axis (unit axes: the scale factors do not stretch the grid) — every OCS, rotation, base point -/
+theorem multi_insert_law (o : Ocs) (i : Ins) (base : V3) (col row cs rs : Rat) (p : V3) :
+    apply (insertMatrix o (i.gridCell col row cs rs) base) p
+      = V3.add (apply (insertMatrix o i base) p) (V3.add (V3.smul (col * cs) (i.xAxis o)) (V3.smul (row * rs) (i.yAxis o))) := by
+  simp only [insertMatrix, Ins.gridCell, Ins.xAxis, Ins.yAxis, toWcs_spec]
+  generalize o.ux = a; generalize o.uy = b; generalize o.uz = n
+  simp only [apply, TransformKernels.mTransform, V3.add, V3.sub, V3.smul, V3.mk.injEq]
+  refine ⟨?_, ?_, ?_⟩ <;> ring
+
+/-- minsert_expansion_law: transforming a MINSERT and then expanding it equals expanding it and transforming every grid element:
+    under the hypotheses of `insert_transform_law` (orthogonal image axes) and non-zero x / y scale, for EVERY grid position
+    (col, row), base point and block point p: the cell matrix of the transformed MINSERT (new spacing from `Insert.transform`)
+    applied to p is `m` applied to the old cell matrix applied to p — mirrored matrices and non-uniform scaling along the axes
+    included.  (Lifts `minsert_grid_law` from the two step vectors to the whole expansion.) -/
+theorem minsert_expansion_law (sqrt : Rat → Rat) (old new : Ocs) (m : M44) (i : Ins) (tol cs rs : Rat)
+    (hn : new.Orthonormal) (hrh : new.RightHanded)
+    (hs1 : sqrt (magSq (insX old m i)) * sqrt (magSq (insX old m i)) = magSq (insX old m i)) (hp1 : 0 < sqrt (magSq (insX old m i)))
+    (hs2 : sqrt (magSq (insY old m i)) * sqrt (magSq (insY old m i)) = magSq (insY old m i)) (hp2 : 0 < sqrt (magSq (insY old m i)))
+    (hp3 : 0 < sqrt (magSq (insZ old m)))
+    (hxy : V3.dot (insX old m i) (insY old m i) = 0) (hxz : V3.dot (insX old m i) (insZ old m) = 0)
+    (hyz : V3.dot (insY old m i) (insZ old m) = 0) (ht0 : 0 ≤ tol) (ht1 : tol < 1)
+    (hnew : new.uz = nrm (sqrt (magSq (insZ old m))) (insZ old m)) (hsx : i.sx ≠ 0) (hsy : i.sy ≠ 0) :
+    ∃ i', Ins.transform sqrt old new m i tol = .ok i' ∧
+      ∀ (col row : Rat) (base p : V3),
+        apply (insertMatrix new ((i'.unitRot sqrt).gridCell col row (minsertSpacing i i' cs rs).1 (minsertSpacing i i' cs rs).2) base) p
+          = apply m (apply (insertMatrix old (i.gridCell col row cs rs) base) p) := by
+  obtain ⟨i', h, hpt, _, _, _⟩ :=
+    insert_transform_law sqrt old new m i tol hn hrh hs1 hp1 hs2 hp2 hp3 hxy hxz hyz ht0 ht1 hnew
+  obtain ⟨i'', h', hgx, hgy⟩ :=
+    minsert_grid_law sqrt old new m i tol cs rs hn hrh hs1 hp1 hs2 hp2 hp3 hxy hxz hyz ht0 ht1 hnew hsx hsy
+  have e : i'' = i' := by rw [h] at h'; cases h'; rfl
+  subst e
+  refine ⟨i'', h, ?_⟩
+  intro col row base p
+  rw [multi_insert_law, multi_insert_law, hpt base p, apply_add_dir, applyDir_add]
+  congr 1
+  have ex : V3.smul (col * (minsertSpacing i i'' cs rs).1) ((i''.unitRot sqrt).xAxis new) = applyDir m (V3.smul (col * cs) (i.xAxis old)) := by
+    have : V3.smul (col * (minsertSpacing i i'' cs rs).1) ((i''.unitRot sqrt).xAxis new)
+        = V3.smul col (V3.smul (minsertSpacing i i'' cs rs).1 ((i''.unitRot sqrt).xAxis new)) := by
+      simp only [V3.smul, V3.mk.injEq]; refine ⟨?_, ?_, ?_⟩ <;> ring
+    rw [this, hgx, ← applyDir_smul]
+    congr 1
+    simp only [V3.smul, V3.mk.injEq]; refine ⟨?_, ?_, ?_⟩ <;> ring
+  have ey : V3.smul (row * (minsertSpacing i i'' cs rs).2) ((i''.unitRot sqrt).yAxis new) = applyDir m (V3.smul (row * rs) (i.yAxis old)) := by
+    have : V3.smul (row * (minsertSpacing i i'' cs rs).2) ((i''.unitRot sqrt).yAxis new)
+        = V3.smul row (V3.smul (minsertSpacing i i'' cs rs).2 ((i''.unitRot sqrt).yAxis new)) := by
+      simp only [V3.smul, V3.mk.injEq]; refine ⟨?_, ?_, ?_⟩ <;> ring
+    rw [this, hgy, ← applyDir_smul]
+    congr 1
+    simp only [V3.smul, V3.mk.injEq]; refine ⟨?_, ?_, ?_⟩ <;> ring
+  rw [ex, ey]
+
+/-- matrix44_spec_std: `matrix44_spec` without its OCS hypotheses for the untransformed OCS (extrusion (0, 0, 1), `OCS.transform =
+    False`, the most common case): the regenerated `Insert.matrix44()` is the closed form `insertMatrix`, for all inputs -/
+theorem matrix44_spec_std (m : M44) (sx sy sz c s r1 : Rat) (ins base : V3) (M : M44)
+    (h : TransformKernels.insertMatrixGen false m sx sy sz ins base c s r1 = .ok M) :
+    M = insertMatrix ⟨false, m⟩ ⟨ins, sx, sy, sz, ⟨c, s⟩⟩ base := by
+  simp only [TransformKernels.insertMatrixGen, Bool.false_eq_true, if_false, Except.ok.injEq] at h
+  subst h
+  simp only [insertMatrix, Ocs.ux, Ocs.uy, Ocs.uz, Ocs.toWcs, TransformKernels.ocsToWcs, Bool.false_eq_true, if_false, V3.add, V3.sub,
+    V3.smul, M44.mk.injEq]
+  refine ⟨?_, ?_, ?_, ?_, ?_, ?_, ?_, ?_, ?_, ?_, ?_, ?_, ?_, ?_, ?_, ?_⟩ <;> first | ring | trivial
+
+/-- polymesh_law: 3-D POLYLINE, POLYMESH and POLYFACE: `Polyline.transform` hands every VERTEX to `DXFVertex.transform`, which maps
+    the location as a WCS point and leaves face records (vertex indices) alone (`vertexRule`, pinned from the source): the vertex
+    list keeps its length and order, every location is `m` applied to the old one, so every mesh point / face corner — any affine
+    combination (`affine_combination_law`) — is mapped by `m`, for every matrix -/
+theorem polymesh_law (m : M44) (vs : List MeshVertex) :
+    TransformKernels.vertexRule = ["3-D polyline / mesh / polyface: every vertex", "face record: unchanged", "location: point"] ∧
+    (meshTransform m vs).length = vs.length ∧
+    (meshTransform m vs).map (·.faceRecord) = vs.map (·.faceRecord) ∧
+    ((meshTransform m vs).filter (fun v => !v.faceRecord)).map (·.loc) = ((vs.filter (fun v => !v.faceRecord)).map (·.loc)).map (apply m) ∧
+    (meshTransform m vs).filter (·.faceRecord) = vs.filter (·.faceRecord) := by
+  refine ⟨by decide +kernel, by simp [meshTransform], ?_, ?_, ?_⟩
+  · induction vs with
+    | nil => rfl
+    | cons v r ih =>
+      simp only [meshTransform, List.map_cons] at ih ⊢
+      cases hv : v.faceRecord <;> simp [hv, ih]
+  · induction vs with
+    | nil => rfl
+    | cons v r ih =>
+      simp only [meshTransform, List.map_cons] at ih ⊢
+      cases hv : v.faceRecord <;> simp [hv, List.filter_cons, ih]
+  · induction vs with
+    | nil => rfl
+    | cons v r ih =>
+      simp only [meshTransform, List.map_cons] at ih ⊢
+      cases hv : v.faceRecord <;> simp [hv, List.filter_cons, ih]
+
+/-- `transform_length(v, reflection)`: the length of the image times the sign of `reflection` -/
+private theorem lengthR_spec (sqrt : Rat → Rat) (o : OcsT) (v : V3) (refl : Rat) :
+    o.lengthR sqrt v refl = sqrt (magSq (applyDir o.m (o.old.toWcs v))) * (if refl < 0 then -1 else 1) := by
+  obtain ⟨m, ⟨t1, m1⟩, ⟨t2, m2⟩, u⟩ := o
+  have hr : TransformKernels.otLengthR_rad1 m t1 m1 t2 m2 v refl = magSq (applyDir m (Ocs.toWcs ⟨t1, m1⟩ v)) := by
+    cases t1 <;>
+      simp only [TransformKernels.otLengthR_rad1, magSq, V3.dot, applyDir, TransformKernels.mTransformDirection, Ocs.toWcs,
+        TransformKernels.ocsToWcs, if_true, if_false, Bool.false_eq_true]
+  simp only [OcsT.lengthR, TransformKernels.otLengthRS, hr, TransformKernels.otLengthR]
+  cases t1 <;> simp
+
+/-- shape_law: SHAPE under a similarity of its plane (mirrored ones included): the insertion point is mapped as a point (every
+    matrix), the rotation is the transformed direction, size'² = k²·size², xscale'² = k²·xscale² and the x scale KEEPS ITS SIGN
+    (a mirrored SHAPE stays mirrored in its OCS; the extrusion carries the reflection of the matrix) -/
+theorem shape_law (sqrt : Rat → Rat) (o : OcsT) (k2 : Rat) (s : Shp) (hp : PlaneSimilar o k2)
+    (hs1 : sqrt (k2 * (s.size * s.size)) * sqrt (k2 * (s.size * s.size)) = k2 * (s.size * s.size))
+    (hs2 : sqrt (k2 * (s.xscale * s.xscale)) * sqrt (k2 * (s.xscale * s.xscale)) = k2 * (s.xscale * s.xscale))
+    (hpos : 0 ≤ sqrt (k2 * (s.xscale * s.xscale))) :
+    (Shp.transform sqrt o s).insert = apply o.m s.insert ∧ (Shp.transform sqrt o s).rot = dir2 o s.rot ∧
+    (Shp.transform sqrt o s).size * (Shp.transform sqrt o s).size = k2 * (s.size * s.size) ∧
+    (Shp.transform sqrt o s).xscale * (Shp.transform sqrt o s).xscale = k2 * (s.xscale * s.xscale) ∧
+    (s.xscale < 0 → (Shp.transform sqrt o s).xscale ≤ 0) ∧ (0 ≤ s.xscale → 0 ≤ (Shp.transform sqrt o s).xscale) ∧
+    (Shp.transform sqrt o s).thickness = s.thickness.map o.thickness := by
+  obtain ⟨hxx, hyy, hxy, _, _⟩ := hp
+  have ry : magSq (applyDir o.m (o.old.toWcs ⟨0, s.size, 0⟩)) = k2 * (s.size * s.size) := by
+    rw [magSq_plane_image, hxx, hyy, hxy]; ring
+  have rx : magSq (applyDir o.m (o.old.toWcs ⟨s.xscale, 0, 0⟩)) = k2 * (s.xscale * s.xscale) := by
+    rw [magSq_plane_image, hxx, hyy, hxy]; ring
+  simp only [Shp.transform, length_spec, lengthR_spec, ry, rx]
+  refine ⟨trivial, trivial, hs1, ?_, ?_, ?_, trivial⟩
+  · split_ifs <;> linear_combination hs2
+  · intro hneg; rw [if_pos hneg]; linarith
+  · intro hge; rw [if_neg (not_lt.mpr hge)]; linarith
+
 /-! ## non-vacuity: the hypotheses used above are met by non-trivial values -/
 
 
@@ -1939,6 +2144,23 @@ example : tilt.toWcs (TransformKernels.translateText tilt.t tilt.m ⟨1, 2, 3⟩
 example : tilt.Orthonormal ∧ tilt.RightHanded ∧
     TransformKernels.insertMatrixGen true tilt.m 2 1 1 ⟨1, 2, 3⟩ ⟨1, 1, 1⟩ (3 / 5) (4 / 5) 1 = .ok (insertMatrix tilt insA ⟨1, 1, 1⟩) ∧
     TransformKernels.insertMatrixGen_rad1 true tilt.m 2 1 1 ⟨1, 2, 3⟩ ⟨1, 1, 1⟩ (3 / 5) (4 / 5) = 1 := by decide +kernel
+
+-- multi_insert_law / matrix44_spec_std / polymesh_law on concrete values
+example : apply (insertMatrix tilt (insA.gridCell 2 1 4 5) ⟨1, 1, 1⟩) ⟨0, 0, 0⟩
+      = V3.add (apply (insertMatrix tilt insA ⟨1, 1, 1⟩) ⟨0, 0, 0⟩) (V3.add (V3.smul 8 (insA.xAxis tilt)) (V3.smul 5 (insA.yAxis tilt))) ∧
+    TransformKernels.insertMatrixGen false M44.identity 2 3 4 ⟨1, 2, 3⟩ ⟨1, 1, 1⟩ (3 / 5) (4 / 5) 1
+      = .ok (insertMatrix Ocs.std ⟨⟨1, 2, 3⟩, 2, 3, 4, ⟨3 / 5, 4 / 5⟩⟩ ⟨1, 1, 1⟩) ∧
+    meshTransform rot5 [⟨⟨1, 0, 0⟩, false⟩, ⟨⟨1, 2, 3⟩, true⟩] = [⟨⟨10, 12, 9⟩, false⟩, ⟨⟨1, 2, 3⟩, true⟩] := by decide +kernel
+
+-- shape_law: mirrored SHAPE (xscale -2) under the factor-5 similarity: size 2 -> 10, xscale -2 -> -10
+example : Shp.transform sqrt100 ⟨rot5, Ocs.std, Ocs.std, true⟩ ⟨⟨1, 2, 3⟩, ⟨1, 0⟩, 2, -2, none⟩ = ⟨⟨2, 18, 24⟩, ⟨3, 4⟩, 10, -10, none⟩ ∧
+    sqrt100 (25 * (2 * 2)) = 10 := by decide +kernel
+
+-- ellipse_shortcut_general: images (1, 0, 0) and (3, 4, 0) (not orthogonal): the rebuilt minor axis is the rejection (0, 4, 0)
+-- rescaled to the length 5; roots ra = 1, rb = 5, rn = 4, r2 = 1
+example : TransformKernels.minorAxis ⟨1, 0, 0⟩ (V3.smul (1 / 4) (V3.cross ⟨1, 0, 0⟩ ⟨3, 4, 0⟩)) (5 / 1) 1 1 = .ok ⟨0, 5, 0⟩ ∧
+    TransformKernels.minorAxis_rad2 ⟨1, 0, 0⟩ (V3.smul (1 / 4) (V3.cross ⟨1, 0, 0⟩ ⟨3, 4, 0⟩)) (5 / 1) 1 = 1 * 1 ∧
+    magSq (V3.cross ⟨1, 0, 0⟩ ⟨3, 4, 0⟩) = 4 * 4 := by decide +kernel
 
 -- temp_transform_law: hypotheses met by a non-trivial history (rotation, mirror)
 example : AllAffine [rot5, mirrorX] ∧ M44.IsAffine rot5 := by decide +kernel
